@@ -109,3 +109,14 @@ for dp, dn, fn in os.walk(root):
       attrs[mod] = class_attrs(tree)
 json.dump(attrs, open(os.path.join(os.path.dirname(TABLE), 'canon_attrs.json'), 'w'), indent=0, sort_keys=True)
 print('classes with attributes:', sum(len(v) for v in attrs.values()))
+
+# attribute names in use anywhere on the reference tree (a "new" attribute name must not collide with one of these)
+av = set()
+for dp, dn, fn in os.walk(root):
+  for f in sorted(fn):
+    if f.endswith('.py'):
+      for n in ast.walk(ast.parse(open(os.path.join(dp, f)).read())):
+        if isinstance(n, ast.Attribute):
+          av.add(n.attr)
+attrs['__all__'] = sorted(av)
+json.dump(attrs, open(os.path.join(os.path.dirname(TABLE), 'canon_attrs.json'), 'w'), indent=0, sort_keys=True)
